@@ -101,3 +101,23 @@ MUTANTS += [
          old="        self.pi_ = self._compute_pi(self.X_current_, self.y_current_)\n        self.pi_[self.selected_idx_[: self.n_selected_]] = 0.0\n\n        super()._continue_greedy_search",
          new="        self.pi_ = self._compute_pi(self.X_current_, self.y_ref_)\n        self.pi_[self.selected_idx_[: self.n_selected_]] = 0.0\n\n        super()._continue_greedy_search"),
 ]
+
+PCV = "src/skmatter/decomposition/_pcovr.py"
+MUTANTS += [
+    # ---------------------------------------------------------------- C03 / C04 / C14
+    dict(name="c03_isqrt_wrong_power", prop=["C03", "C04", "C14"], file=PU,
+         old="        C_isqrt = UC @ np.diagflat(1.0 / vC) @ UC.T", new="        C_isqrt = UC @ np.diagflat(1.0 / vC**2) @ UC.T"),
+    dict(name="c03_P_factor_dropped", prop=["C03", "C14"], file=PCV,
+         old="        P = (self.mixing * X.T) + (1.0 - self.mixing) * W @ Yhat.T", new="        P = (self.mixing * X.T) + W @ Yhat.T"),
+    dict(name="c03_arpack_order", prop="C03", file=PCV,
+         old="            S = S[::-1]\n", new="            S = S\n"),
+    dict(name="c03_arpack_vectors_not_reversed", prop="C03", file=PCV,
+         old="            U, Vt = svd_flip(U[:, ::-1], Vt[::-1])", new="            U, Vt = svd_flip(U, Vt)"),
+    dict(name="c03_explained_variance_n", prop=["C03"], file=PCV, count=1,
+         old="        self.explained_variance_ = S / (X.shape[0] - 1)\n        self.explained_variance_ratio_ = (\n            self.explained_variance_ / self.explained_variance_.sum()\n        )\n\n        P = ",
+         new="        self.explained_variance_ = S / (X.shape[0])\n        self.explained_variance_ratio_ = (\n            self.explained_variance_ / self.explained_variance_.sum()\n        )\n\n        P = "),
+    dict(name="c03_sample_space_uses_Y_not_Yhat", prop=["C03", "C04"], file=PCV,
+         old="        Kt = pcovr_kernel(mixing=self.mixing, X=X, Y=Yhat)", new="        Kt = pcovr_kernel(mixing=self.mixing, X=X, Y=Y)"),
+    dict(name="revert_fix_pcovr_1d_precomputed", prop=["C03", "C14"], file=PCV,
+         old="            Yhat = Y.copy().reshape(X.shape[0], -1)", new="            Yhat = Y.copy()"),
+]
